@@ -122,3 +122,116 @@ impl<M> Validate for Flag<M> {
         if self.accept { Ok(()) } else { Err(PasetoError::ClaimsError) }
     }
 }
+
+
+// ------------------------------------------------------------------------------------------
+// a minimal non-human-readable serde format: records what a value serialises as, and offers a
+// string or a byte string to a visitor
+
+#[derive(Debug, PartialEq)]
+pub enum Probed {
+    Str(String),
+    Bytes(Vec<u8>),
+    Other(&'static str),
+}
+
+#[derive(Debug)]
+pub struct ProbeError(pub String);
+impl std::fmt::Display for ProbeError {
+    fn fmt(&self, f: &mut std::fmt::Formatter<'_>) -> std::fmt::Result {
+        f.write_str(&self.0)
+    }
+}
+impl std::error::Error for ProbeError {}
+impl serde::ser::Error for ProbeError {
+    fn custom<T: std::fmt::Display>(m: T) -> Self {
+        ProbeError(m.to_string())
+    }
+}
+impl serde::de::Error for ProbeError {
+    fn custom<T: std::fmt::Display>(m: T) -> Self {
+        ProbeError(m.to_string())
+    }
+}
+
+pub struct ProbeSerializer;
+
+macro_rules! other {
+    ($($name:ident($($arg:ty),*)),* $(,)?) => {
+        $(fn $name(self, $(_: $arg),*) -> Result<Probed, ProbeError> { Ok(Probed::Other(stringify!($name))) })*
+    };
+}
+
+impl serde::Serializer for ProbeSerializer {
+    type Ok = Probed;
+    type Error = ProbeError;
+    type SerializeSeq = serde::ser::Impossible<Probed, ProbeError>;
+    type SerializeTuple = serde::ser::Impossible<Probed, ProbeError>;
+    type SerializeTupleStruct = serde::ser::Impossible<Probed, ProbeError>;
+    type SerializeTupleVariant = serde::ser::Impossible<Probed, ProbeError>;
+    type SerializeMap = serde::ser::Impossible<Probed, ProbeError>;
+    type SerializeStruct = serde::ser::Impossible<Probed, ProbeError>;
+    type SerializeStructVariant = serde::ser::Impossible<Probed, ProbeError>;
+    fn is_human_readable(&self) -> bool {
+        false
+    }
+    fn serialize_str(self, v: &str) -> Result<Probed, ProbeError> {
+        Ok(Probed::Str(v.to_string()))
+    }
+    fn serialize_bytes(self, v: &[u8]) -> Result<Probed, ProbeError> {
+        Ok(Probed::Bytes(v.to_vec()))
+    }
+    other!(serialize_bool(bool), serialize_i8(i8), serialize_i16(i16), serialize_i32(i32), serialize_i64(i64), serialize_u8(u8), serialize_u16(u16), serialize_u32(u32), serialize_u64(u64), serialize_f32(f32), serialize_f64(f64), serialize_char(char), serialize_none(), serialize_unit(), serialize_unit_struct(&'static str), serialize_unit_variant(&'static str, u32, &'static str));
+    fn serialize_some<T: ?Sized + serde::Serialize>(self, _: &T) -> Result<Probed, ProbeError> {
+        Ok(Probed::Other("some"))
+    }
+    fn serialize_newtype_struct<T: ?Sized + serde::Serialize>(self, _: &'static str, v: &T) -> Result<Probed, ProbeError> {
+        v.serialize(self)
+    }
+    fn serialize_newtype_variant<T: ?Sized + serde::Serialize>(self, _: &'static str, _: u32, _: &'static str, _: &T) -> Result<Probed, ProbeError> {
+        Ok(Probed::Other("newtype_variant"))
+    }
+    fn serialize_seq(self, _: Option<usize>) -> Result<Self::SerializeSeq, ProbeError> {
+        Err(ProbeError("seq".into()))
+    }
+    fn serialize_tuple(self, _: usize) -> Result<Self::SerializeTuple, ProbeError> {
+        Err(ProbeError("tuple".into()))
+    }
+    fn serialize_tuple_struct(self, _: &'static str, _: usize) -> Result<Self::SerializeTupleStruct, ProbeError> {
+        Err(ProbeError("tuple_struct".into()))
+    }
+    fn serialize_tuple_variant(self, _: &'static str, _: u32, _: &'static str, _: usize) -> Result<Self::SerializeTupleVariant, ProbeError> {
+        Err(ProbeError("tuple_variant".into()))
+    }
+    fn serialize_map(self, _: Option<usize>) -> Result<Self::SerializeMap, ProbeError> {
+        Err(ProbeError("map".into()))
+    }
+    fn serialize_struct(self, _: &'static str, _: usize) -> Result<Self::SerializeStruct, ProbeError> {
+        Err(ProbeError("struct".into()))
+    }
+    fn serialize_struct_variant(self, _: &'static str, _: u32, _: &'static str, _: usize) -> Result<Self::SerializeStructVariant, ProbeError> {
+        Err(ProbeError("struct_variant".into()))
+    }
+}
+
+pub enum ProbeDeserializer<'a> {
+    Str(&'a str),
+    Bytes(&'a [u8]),
+}
+
+impl<'de, 'a> serde::Deserializer<'de> for ProbeDeserializer<'a> {
+    type Error = ProbeError;
+    fn is_human_readable(&self) -> bool {
+        false
+    }
+    fn deserialize_any<V: serde::de::Visitor<'de>>(self, v: V) -> Result<V::Value, ProbeError> {
+        match self {
+            ProbeDeserializer::Str(s) => v.visit_str(s),
+            ProbeDeserializer::Bytes(b) => v.visit_bytes(b),
+        }
+    }
+    serde::forward_to_deserialize_any! {
+        bool i8 i16 i32 i64 i128 u8 u16 u32 u64 u128 f32 f64 char str string bytes byte_buf option unit
+        unit_struct newtype_struct seq tuple tuple_struct map struct enum identifier ignored_any
+    }
+}
